@@ -878,6 +878,18 @@ structure FileResult (F : Type) where
 /-- p21read's exit status after reading -/
 def exitStatus (e : Sev) : Nat := if e.toInt ≤ Sev.incomplete.toInt then 1 else 0
 
+/-- `GetKeyword( in, ";", err )`: (an invalid character was met, stream) -/
+def getKeyword : Nat → Bool → Byte → IStream → Bool → Bool × IStream
+  | 0, _, _, s, bad => (bad, s)
+  | fuel + 1, first, c0, s, bad =>
+    let (c, s1) := if first then getInto c0 s else (c0, s)
+    if isSpace c || c == 59 || c == 0 then (bad, s1.putback c)
+    else if !(isUpper c || isDigit c || c == 95 || c == 45 || (c == 33 && first)) then (true, s1.putback c)
+    else if !s1.good then (bad, s1.putback c)
+    else
+      let (c', s2) := getInto c s1
+      getKeyword fuel false c' s2 bad
+
 /-- both passes over the text following `DATA;` (each pass gets its own stream; `skipws` as the header left it) -/
 def readDataSection {F} (ops : FloatOps F) (lex : LexCfg) (cfg : RWCfg) (d : Dict) (strict : Bool) (skipws : Bool)
     (bytes : List Byte) : M (FileResult F) := do
@@ -888,12 +900,23 @@ def readDataSection {F} (ops : FloatOps F) (lex : LexCfg) (cfg : RWCfg) (d : Dic
   let st0 : P2 F := { mgr := p1.mgr, fileErr := e1, total := 0, valid := 0, invalid := 0, incomplete := 0, warnings := 0, s := s1 }
   let p2 ← readData2Loop ops lex cfg d strict (s1.right.length + 3) st0 es
   let e2 := if p2.invalid > 0 then p2.fileErr.greater .warning else p2.fileErr
+  let mk (sev ret : Sev) : FileResult F :=
+    { mgr := p2.mgr, sev := sev, ret := ret, created := p1.count, notCreated := p1.notCreated, valid := p2.valid,
+      invalid := p2.invalid, incomplete := p2.incomplete }
+  let s2 := readTokenSeparator p2.s
   if p1.count != p2.valid then
     let e3 := e2.greater .warning
-    pure { mgr := p2.mgr, sev := e3, ret := e3, created := p1.count, notCreated := p1.notCreated, valid := p2.valid,
-           invalid := p2.invalid, incomplete := p2.incomplete }
+    pure (mk e3 e3)
   else
-    pure { mgr := p2.mgr, sev := e2, ret := .null, created := p1.count, notCreated := p1.notCreated, valid := p2.valid,
-           invalid := p2.invalid, incomplete := p2.incomplete }
+    -- `END-ISO-10303-21;`: the keyword itself is not compared (see the notes); what counts is the stream state
+    let (e3, s3) : Sev × IStream :=
+      if s2.good then
+        let (bad, s') := getKeyword (s2.right.length + 3) true 0 (readTokenSeparator s2) false
+        (if bad then e2.greater .warning else e2, (getInto 0 s').2)
+      else (e2, s2)
+    if !s3.good then
+      let e4 := e3.greater .warning
+      pure (mk e4 e4)
+    else pure (mk e3 .null)
 
 end StepModel.P21
